@@ -437,7 +437,17 @@ class Ctx:
         if k == "paren":
             return self.prop(e[1])
         if k == "&&":
-            return f"({self.prop(e[1])} ∧ {self.prop(e[2])})"
+            # the conditions of the dispatch chains are pure comparisons of strides and sizes: the conjuncts are emitted in one
+            # canonical (sorted) order, so that `a && b` -> `b && a` in the source does not change the generated guard
+            def flat(x):
+                while x[0] == "paren":
+                    x = x[1]
+                return flat(x[1]) + flat(x[2]) if x[0] == "&&" else [x]
+            parts = sorted(self.prop(x) for x in flat(e))
+            t = parts[0]
+            for q in parts[1:]:
+                t = f"({t} ∧ {q})"
+            return t
         if k == "||":
             return f"({self.prop(e[1])} ∨ {self.prop(e[2])})"
         if k == "un!":
@@ -452,8 +462,11 @@ class Ctx:
             if "base()" in cl and "base()" in cr:   # pointer comparisons (aliasing asserts): positions in the arena
                 s = f"{self.ptr(l)} = {self.ptr(r)}"
                 return f"({s})" if k == "==" else f"({self.ptr(l)} ≠ {self.ptr(r)})"
-            s = f"{self.int(l)} = {self.int(r)}"
-            return f"({s})" if k == "==" else f"({self.int(l)} ≠ {self.int(r)})"
+            x, y = self.int(l), self.int(r)
+            if re.fullmatch(r"\(?-?\d+\)?", x) and not re.fullmatch(r"\(?-?\d+\)?", y):
+                x, y = y, x      # `0 == n` is `n == 0`
+            s = f"{x} = {y}"
+            return f"({s})" if k == "==" else f"({x} ≠ {y})"
         if k in (">=", "<="):
             return f"({self.int(e[1])} {'≥' if k == '>=' else '≤'} {self.int(e[2])})"
         if k == "num":
